@@ -279,3 +279,24 @@ def harness_text_ids(unit):
             allids = set(re.findall(r'"(C\d\d\.[\w.\-]+)', body))
             ids[name] = (sorted(allids - covers), sorted(covers))
     return ids
+
+
+def ledger(units):
+    """every kani::assume / kani::stub / stub_verified / unsafe in the spliced harness text, per unit (assumption ledger)."""
+    led = []
+    for u in units:
+        for sp in u.get('splices', []):
+            if not sp.get('append'):
+                continue
+            text = _read_with_includes(os.path.join(u['dir'], sp['append']))
+            m = mask_text(text)
+            n_assume = len(re.findall(r'kani::assume\s*\(', m))
+            stubs = sorted(set(re.findall(r'kani::stub(?:_verified)?\(\s*([^,)]+)', m)))
+            n_unsafe = len(re.findall(r'\bunsafe\b', m))
+            led.append(dict(unit=u['unit'], file=sp['file'], kani_assume=n_assume, stubs=stubs, unsafe_blocks=n_unsafe))
+    return led
+
+
+def mask_text(t):
+    from rsx import mask
+    return mask(t)
